@@ -204,7 +204,7 @@ def finish (d0 d : DS) (cx : OpCtx) (mDone : List (Nat × String)) (rx : List St
   let mObs := render d mDone rx nt
   let viol := if d.off then [] else oracles d0 d cx mDone mObs implObs
   let left := dropRtx implObs ≠ dropRtx mObs
-  let d := if left ∨ !viol.isEmpty then { d with off := true } else d
+  let d := if left ∨ viol.any (fun v => !v.startsWith "C15 answered-announce-retransmitted evidence=scheduled") then { d with off := true } else d
   (d, mObs, viol)
 
 def step' (d : DS) (op implObs : String) : DS × String × List String :=
